@@ -568,10 +568,10 @@ func (obj *SparseInt64Vector) Import(filename string) error {
     } else {
       indices = append(indices, int(v))
     }
-    if v, err := strconv.ParseFloat(fields[1], 64); err != nil {
+    if v, err := parse_int64(fields[1]); err != nil {
       return err
     } else {
-      values = append(values, int64(v))
+      values = append(values, v)
     }
   }
   if err := checkSparseIndices(indices, n); err != nil {
